@@ -159,6 +159,15 @@ theorem prune_guard_preserves (A : UtxoAlg) (img : Image A) (hi : Inv img) (n m 
       exact hf (List.any_eq_true.mpr ⟨x, hx, by simpa using hle⟩)
     omega
 
+/-- The first hypothesis of `prune_guard_preserves` is an invariant of the (fixed)
+code: after start-up on ANY image and any workload, under EVERY configuration
+(pruning on or off, any cache size), the in-memory last flush point equals the
+persisted utxo consistency marker.  This is exactly what F-C04-b violated. -/
+theorem last_flush_is_marker (A : UtxoAlg) (cfg : Cfg) (img : Image A) (rn : Node A)
+    (r : recover cfg img = .ok rn) (ops : List Op) :
+    (runOps cfg rn ops).lastFlush = (runOps cfg rn ops).img.marker :=
+  lf_runOps cfg ops rn (lf_recover cfg r)
+
 /-- F-C04-b (fixed in the tree, commit 0272d521): why the guard has to compare
 with the persisted marker.  Image: chain 1–3 active, marker at block 1, all
 stored.  Had the guard compared the deleted heights with the tip (height 3), a
